@@ -1385,6 +1385,7 @@ impl Compiler {
                 class_brand,
                 class_name.clone(),
                 has_super,
+                class.span,
             )?
         };
 
@@ -2193,6 +2194,7 @@ impl Compiler {
         class_brand: u32,
         name: Option<JsString>,
         has_super: bool,
+        class_span: crate::lexer::Span,
     ) -> Result<super::BytecodeChunk, JsError> {
         use super::FunctionInfo;
 
@@ -2203,6 +2205,8 @@ impl Compiler {
         if let Some(ref path) = self.source_file {
             func_compiler.builder.set_source_file(path.clone());
         }
+        // The synthesised instructions (the forwarding super call) belong to the class itself
+        func_compiler.builder.set_span(class_span);
 
         // Copy the class context so private field access works inside the constructor
         func_compiler.class_context_stack = self.class_context_stack.clone();
